@@ -292,6 +292,14 @@ fn approximate<const L: usize>(x: &LInt<L>, y: &LInt<L>) -> (u64, u64, bool) {
     (h.0 | l.0, h.1 | l.1, false)
 }
 
+/// Verification hook: exposes the private `approximate` (the pair of "approximations"
+/// used by the inner loop of `jacobi` and the flag saying whether they are exact) to the
+/// correspondence harness. The arguments are little-endian chunk slices of length at most `L`.
+#[cfg(feature = "verif-hooks")]
+pub fn verif_approximate<const L: usize>(x: &[u64], y: &[u64]) -> (u64, u64, bool) {
+    approximate(&LInt::<L>::new(x), &LInt::<L>::new(y))
+}
+
 /// Returns the Jacobi symbol ("n" / "d") multiplied by either 1 or -1.
 /// The later multiplicand is -1 iff the second-lowest bit of "t" is 1.
 /// The value of "d" must be odd in accordance with the Jacobi symbol
